@@ -476,7 +476,7 @@ static std::string step(const Toks& t)
 			if (pos == 0 || out[pos - 1] == '\n')
 			{
 				int code = atoi(out.c_str() + pos + 9);
-				if (!(code == 200 || code == 206 || code == 301 || code == 304 || code == 404 || code == 416 || code == 501 || code == 405))
+				if (!(code == 100 || code == 417 || code == 200 || code == 206 || code == 301 || code == 304 || code == 404 || code == 416 || code == 501 || code == 405))
 					return "bad-status " + str(code);
 			}
 			pos += 7;
